@@ -712,12 +712,14 @@ var c07Probes = []struct{ key, mode, src string }{
 	{"panic:bytecode.greaterThanOrEqualByteCode", "run", "import \"fmt\"\nfunc main() {\n fmt.Println(1 >= float64)\n}\n"},
 	{"panic:bytecode.lessThanByteCode", "run", "import \"fmt\"\nfunc main() {\n fmt.Println(1 < float64)\n}\n"},
 	{"panic:bytecode.lessThanOrEqualByteCode", "run", "import \"fmt\"\nfunc main() {\n fmt.Println(1 <= float64)\n}\n"},
+	{"panic:builtins.Make", "run", "import \"fmt\"\nfunc main() {\n a := make([]int, 9223372036854775807)\n fmt.Println(len(a))\n}\n"},
+	{"fatal:out-of-memory:builtins.Make", "run", "import \"fmt\"\nfunc main() {\n a := make([]int, 1099511627776)\n fmt.Println(len(a))\n}\n"},
 	{"panic:bytecode.exponentByteCode", "run", "import \"fmt\"\nfunc main() {\n fmt.Println(2.5 ^ 2)\n}\n"},
 }
 
 func TestC07(t *testing.T) {
 	r := vh.New("C07", "crash")
-	r.Rule = "inputs = token-level mutations (13 operators, 1-6 per input) of every .ego file under tests/, lib/packages, lib/services, examples, plus raw random bytes / ASCII / punctuation / token soup, " +
+	r.Rule = "inputs = token-level mutations (13 operators, 1-6 per input) of every .ego file under tests/, lib/packages, lib/services, examples and of programs from the shared generator verifh/gen (a quarter of the mutants), plus raw random bytes / ASCII / punctuation / token soup, " +
 		"plus 35 deep-nesting shapes, plus generated ill-typed statements (130 statement templates x 150 operand atoms: types, packages, functions, nil, collections where values are expected); each is run in one of 5 modes (run, fragment=piped stdin, test, server=admin.RunCodeHandler editor, console). " +
 		"distinct = distinct (mode, bytes); non-trivial = not byte-identical to an unmutated corpus file and non-empty."
 	r.Assume("the harness child (egorun / TestAction mirror / direct RunCodeHandler call) reaches the same compiler and VM code as the ego binary; every violation witness is re-run through the real binary and the result recorded")
@@ -772,6 +774,21 @@ func TestC07(t *testing.T) {
 				r.Eval(id, !in.base && len(in.src) > 0)
 				r.Count("outcome."+res.class, 1)
 				r.Count("mode."+in.Mode, 1)
+
+				switch {
+				case strings.HasPrefix(in.Origin, "generated:gen"):
+					r.Count("seed.verifh-gen", 1)
+				case strings.HasPrefix(in.Origin, "generated:illtyped"):
+					r.Count("seed.illtyped", 1)
+				case strings.HasPrefix(in.Origin, "random:"):
+					r.Count("seed.random", 1)
+				case strings.HasPrefix(in.Origin, "nest:"):
+					r.Count("seed.nest", 1)
+				case strings.HasPrefix(in.Origin, "probe:"):
+					r.Count("seed.probe", 1)
+				default:
+					r.Count("seed.corpus", 1)
+				}
 
 				if strings.HasPrefix(in.Op, "illtyped:") {
 					r.Count("op.illtyped", 1)
